@@ -171,6 +171,24 @@ void sx_main(void)
 		sx_assert(kfds[ev->event_wfd].nonblock && kfds[ev->event_wfd].cloexec,
 			  "C18.raw-event-fd-not-nonblock-cloexec");
 	}
+	if (sx_opt("rereg", 0)) {
+		/* second use of the same object: unregistered, then registered again as it is, possibly after the
+		 * eventfd calls have stopped working (the pipe gets the descriptor number that was just freed) */
+		struct iv_event_raw *ev = R[0].ev;
+
+		iv_event_raw_unregister(ev);
+		if (sx_choose(2)) {
+			k_sys_fail_from[KSYS_EVENTFD2] = k_sys_calls[KSYS_EVENTFD2] + 1;
+			k_sys_fail_from[KSYS_EVENTFD] = k_sys_calls[KSYS_EVENTFD] + 1;
+			sx_cover("raw.reregistered-after-eventfd-disappeared");
+		}
+		sx_assert(iv_event_raw_register(ev) == 0, "C09.raw-register-failed");
+		sx_assert(kfds[ev->event_rfd.fd].nonblock && kfds[ev->event_rfd.fd].cloexec,
+			  "C18.raw-event-fd-not-nonblock-cloexec");
+		sx_assert(kfds[ev->event_wfd].nonblock, "C09.write-end-blocking-so-posting-may-block");
+		sx_assert(kfds[ev->event_wfd].cloexec, "C18.raw-event-fd-not-nonblock-cloexec");
+		sx_cover("raw.reregistered");
+	}
 	if (nS > 0) {
 		struct sigaction sa;
 		memset(&sa, 0, sizeof(sa));
